@@ -177,7 +177,7 @@ def parse_rvalue(s):
         if not r.strip():
             return (m.group(1).lower(), p)
     if s.startswith('&'):
-        m = re.match(r'^&(mut |raw const |raw mut |raw |fake shallow |fake )?(.*)$', s)
+        m = re.match(r'^&(mut |raw const \(fake\) |raw const |raw mut |raw |fake shallow |fake )?(.*)$', s)
         p, r = parse_place(m.group(2))
         if r.strip():
             raise ParseError('ref rest: ' + s)
